@@ -7,7 +7,7 @@
 (*   "body0":[bytes the original encodes to],"body1":[bytes the re-parsed message encodes to]} *)
 (*  {"ev":"Fuzz","toks":[..],"safe":bool,"outcome":..,"okind":"ok"|"arith"|"exc",               *)
 (*   "evaluated":bool}: mutated texts; okind "arith" = the exception is one only running the   *)
-(*   text can raise (ZeroDivision/Overflow/NameError)                                                  *)
+(*   text can raise (ZeroDivisionError, NameError)                                                     *)
 EXTENDS HumanText, Json, IOUtils, TLCExt
 TraceLog == ndJsonDeserialize(IOEnv.TRACE_FILE)
 VARIABLES l, tid
